@@ -1,9 +1,9 @@
 #!/bin/sh
-# thorough sweep over all checks: sweep.sh <seed> [budget_s]; run from a /verif tree whose bin/ was built (build.sh)
+# thorough sweep over all checks (or those named in SWEEP_PROPS): sweep.sh <seed> [budget_s]; run from a /verif tree whose bin/ was built (build.sh)
 export GOFLAGS=-mod=mod GOPROXY=off GOSUMDB=off GOTOOLCHAIN=local
 D=$(cd "$(dirname "$0")/.." && pwd)
 [ -x "$D/bin/vcheck" ] || "$D/build.sh" >/dev/null 2>&1
-for p in C01 C02 C03 C04 C05 C06 C07 C08 C09 C10 C11 C12 C13 C14 C15 C16 C17 C18 C20; do
+for p in ${SWEEP_PROPS:-C01 C02 C03 C04 C05 C06 C07 C08 C09 C10 C11 C12 C13 C14 C15 C16 C17 C18 C20}; do
   s=$(date +%s)
   VERIF_SEED=$1 VERIF_BUDGET_S=${2:-240} "$D/bin/vcheck" $p thorough > "$D/sweep_$1_$p.log" 2>&1
   echo "$p seed=$1 exit=$? $(( $(date +%s)-s ))s $(grep -c '^VIOLATION' "$D/sweep_$1_$p.log") violations $(grep -c '^KNOWN-FINDING' "$D/sweep_$1_$p.log") known; $(tail -1 "$D/sweep_$1_$p.log" | cut -c1-160)"
